@@ -11,7 +11,6 @@
 package c14
 
 import (
-	"encoding/xml"
 	"flag"
 	"fmt"
 	"math/rand"
@@ -142,14 +141,59 @@ func allTraffic(maxLen int, states []string) []tpat {
 	return out
 }
 
-// ---------------------------------------------------------------- helpers
+// ---------------------------------------------------------------- URLs derived from the served MPD
 
-type mpdDoc struct {
-	BaseURLs []string `xml:"BaseURL"`
-	Periods  []struct {
-		BaseURLs []string `xml:"BaseURL"`
-	} `xml:"Period"`
+// expand fills a SegmentTemplate@media (identifiers without format tags).
+func expand(media, repID string, v int64) string {
+	r := strings.NewReplacer("$RepresentationID$", repID, "$Number$", fmt.Sprint(v), "$Time$", fmt.Sprint(v))
+	return r.Replace(media)
 }
+
+// periodFor returns the index of the Period of m that contains media time segStartMS (ms after
+// availabilityStartTime): the last Period whose @start is not later. -1: none.
+func periodFor(m *project.XMPD, segStartMS int64) int {
+	best := -1
+	for i, p := range m.Periods {
+		st := int64(0)
+		if p.Start != "" {
+			v, err := project.DurMS(p.Start)
+			if err != nil {
+				continue
+			}
+			st = v
+		}
+		if st <= segStartMS {
+			best = i
+		}
+	}
+	return best
+}
+
+// mediaFor returns SegmentTemplate@media of the AdaptationSet of period pi that holds representation repID.
+func mediaFor(m *project.XMPD, pi int, repID string) (string, bool) {
+	for _, as := range m.Periods[pi].AS {
+		for _, r := range as.Representations {
+			if r.ID == repID && as.SegmentTemplate != nil && as.SegmentTemplate.Media != "" {
+				return as.SegmentTemplate.Media, true
+			}
+		}
+	}
+	return "", false
+}
+
+func periodBaseURLs(m *project.XMPD) ([][]string, []string) {
+	out := make([][]string, 0, len(m.Periods))
+	ids := make([]string, 0, len(m.Periods))
+	for _, p := range m.Periods {
+		b := make([]string, 0, len(p.BaseURLs))
+		b = append(b, p.BaseURLs...)
+		out = append(out, b)
+		ids = append(ids, p.ID)
+	}
+	return out, ids
+}
+
+// ---------------------------------------------------------------- helpers
 
 // audioTime is the decode time (audio timescale) of the audio segment that follows a video segment starting at
 // startTicks/ts: the first audio frame boundary (frame = samples per frame) at or after the video start.
@@ -235,6 +279,9 @@ type counters struct {
 	byStatus map[int]int
 	distinct map[string]bool
 	sleepers int
+	multiPeriodMPDs int
+	mpdDerived      int
+	mpdFallback     int
 }
 
 func (c *counters) add(st int, key string) {
@@ -290,6 +337,9 @@ func Main(args []string) error {
 		msOff int64
 		full  bool           // request slow/hanging seconds too (edges), else only where the guess says u/d
 		sh    map[string]int // budget of slow / hang requests for this scenario
+		mode  string         // MPD type
+		pph   int            // periods_<pph> (periods per hour), 0 = single period
+		cont  bool           // continuous_1
 	}
 	var tscs []tsc
 	var withAudio, all []*tl.Asset
@@ -388,6 +438,45 @@ func Main(args []string) error {
 			tscs = append(tscs, tsc{a: all[rng.Intn(len(all))], pats: shPats[j : j+1], ast: ast, base: pickBase(ast), sh: map[string]int{}})
 		}
 	}
+	// MPD type and multi-period configuration of every traffic scenario.  periods_<N> needs segments of one
+	// duration that divides the period duration 3600/N s; the request instants lie deep in an hour.
+	periodsOK := func(a *tl.Asset, pph int) bool {
+		v := a.Video
+		for _, d := range v.Dur {
+			if d != v.Dur[0] {
+				return false
+			}
+		}
+		if v.Dur[0]*1000%v.TS != 0 {
+			return false
+		}
+		return (3600_000/int64(pph))%(v.Dur[0]*1000/v.TS) == 0 && 3600%pph == 0
+	}
+	pphs := []int{60, 120, 30, 20, 18}
+	for j := range tscs {
+		sc := &tscs[j]
+		sc.mode = []string{"number", "time", "tlnr"}[(j+int(*seed))%3]
+		if (j+int(*seed))%2 == 0 {
+			continue
+		}
+		pph := pphs[(j/2+int(*seed))%len(pphs)]
+		if !periodsOK(sc.a, pph) {
+			var cand []*tl.Asset
+			for _, a := range all {
+				if periodsOK(a, pph) {
+					cand = append(cand, a)
+				}
+			}
+			if len(cand) == 0 {
+				continue
+			}
+			sc.a = cand[rng.Intn(len(cand))]
+		}
+		sc.pph, sc.cont = pph, (j/2)%2 == 1
+		if sc.base < 1_000_000_000 { // deep in the hour, one to three hours after the start of the stream
+			sc.base = sc.ast + 3600*int64(1+rng.Intn(3)) + rng.Int63n(3600)
+		}
+	}
 	// the sleeping scenarios go first so that their wall time overlaps with everything else
 	sort.SliceStable(tscs, func(i, j int) bool { return len(tscs[i].sh) > 0 && tscs[i].sh["h"] > tscs[j].sh["h"] })
 
@@ -401,37 +490,53 @@ func Main(args []string) error {
 				names = append(names, p.String())
 				hp = append(hp, p.hdr())
 			}
-			c := tl.Cfg{Mode: "number", SNR: -1, AST: sc.ast, TSBD: -1, Extra: []string{"traffic_" + strings.Join(names, ",")}}
-			emit(tl.HeaderE(idx, a, rt, c, tr.E{"part": "traffic", "pats": []any{}, "traffic": hp, "multirep": false}))
-			mu := c.Prefix(a.Name) + "/" + a.MPD + fmt.Sprintf("?nowMS=%d", sc.base*1000)
-			r := env.S.Get(mu)
-			var doc mpdDoc
-			bus := []string{}
-			if r.Status == 200 && xml.Unmarshal(r.Body, &doc) == nil {
-				bus = append(bus, doc.BaseURLs...)
-				for _, p := range doc.Periods {
-					bus = append(bus, p.BaseURLs...)
+			var extra []string
+			if sc.pph > 0 {
+				extra = append(extra, fmt.Sprintf("periods_%d", sc.pph))
+				if sc.cont {
+					extra = append(extra, "continuous_1")
 				}
 			}
-			cnt.add(r.Status, "")
-			emit(tr.E{"ev": "mpd", "st": r.Status, "baseurls": bus, "url": mu})
+			extra = append(extra, "traffic_"+strings.Join(names, ","))
+			c := tl.Cfg{Mode: sc.mode, SNR: -1, AST: sc.ast, TSBD: -1, Extra: extra}
+			emit(tl.HeaderE(idx, a, rt, c, tr.E{"part": "traffic", "pats": []any{}, "traffic": hp, "multirep": false, "pph": sc.pph}))
 			type rq struct {
 				b        int
 				sec, rel int64
 				n        int64
 				url      string
+				period   string
 				st       int
 				ms       int64
 				sleeper  bool // the driver's guess says slow / hanging: run concurrently
 			}
+			// the trace of the scenario in order: MPD observations (ready events) and requests (filled in later)
+			type item struct {
+				e tr.E
+				q *rq
+			}
+			var items []item
 			var rqs []*rq
 			budget := map[string]int{"s": sc.sh["s"], "h": sc.sh["h"]}
-			for b, p := range sc.pats {
-				if b >= len(bus) {
-					break // reported by C14.baseurls
+			maxCyc := int64(0)
+			for _, p := range sc.pats {
+				if c := int64(p.cycle()); c > maxCyc {
+					maxCyc = c
 				}
-				cyc := int64(p.cycle())
-				for sec := sc.base; sec < sc.base+2*cyc+1; sec++ {
+			}
+			N := int64(rt.N)
+			for sec := sc.base; sec < sc.base+2*maxCyc+1; sec++ {
+				// which BaseURLs get a request at this second
+				type want struct {
+					b       int
+					sleeper bool
+				}
+				var wants []want
+				for b, p := range sc.pats {
+					cyc := int64(p.cycle())
+					if sec >= sc.base+2*cyc+1 {
+						continue
+					}
 					g, first, last := p.stateGuess(sec)
 					if g == "s" || g == "h" {
 						if budget[g] == 0 || !(first || last) {
@@ -442,14 +547,78 @@ func Main(args []string) error {
 						cnt.sleepers++
 						cnt.mu.Unlock()
 					}
-					relMS := (sec-sc.ast)*1000 + sc.msOff
-					n := newestAvail(rt, relMS)
-					pth := strings.TrimPrefix(tl.SegURL(c, a, rt, n), c.Prefix(a.Name)+"/") // path below the asset, as in the MPD
-					rqs = append(rqs, &rq{b: b, sec: sec, rel: sec - sc.ast, n: n, sleeper: g == "s" || g == "h",
-						url: c.Prefix(a.Name) + "/" + bus[b] + pth + fmt.Sprintf("?nowMS=%d", sec*1000+sc.msOff)})
+					wants = append(wants, want{b, g == "s" || g == "h"})
 					cnt.mu.Lock()
 					cnt.distinct[fmt.Sprintf("T|%s|%d", p.String(), sec%cyc)] = true
 					cnt.mu.Unlock()
+				}
+				if len(wants) == 0 {
+					continue
+				}
+				// what a client does: fetch the MPD at this instant and build the segment URL from the Period that
+				// contains the segment: Period BaseURL number b + SegmentTemplate@media + Representation@id.
+				// Only the value of $Number$ / $Time$ of the newest available segment comes from the ground truth.
+				nowMS := sec*1000 + sc.msOff
+				mu := c.Prefix(a.Name) + "/" + a.MPD + fmt.Sprintf("?nowMS=%d", nowMS)
+				r := env.S.Get(mu)
+				cnt.add(r.Status, "")
+				var m *project.XMPD
+				if r.Status == 200 {
+					m, _ = project.ParseMPD(r.Body)
+				}
+				if m == nil {
+					m = &project.XMPD{}
+				}
+				pbs, pids := periodBaseURLs(m)
+				items = append(items, item{e: tr.E{"ev": "mpd", "st": r.Status, "periods": pbs, "pids": pids, "url": mu}})
+				cnt.mu.Lock()
+				cnt.distinct[fmt.Sprintf("M|%s|%d", c.Prefix(a.Name), len(m.Periods))] = true
+				if len(m.Periods) > 1 {
+					cnt.multiPeriodMPDs++
+				}
+				cnt.mu.Unlock()
+				relMS := (sec-sc.ast)*1000 + sc.msOff
+				n := newestAvail(rt, relMS)
+				// alternate between the newest segment and one that is half a time-shift buffer old (an earlier Period
+				// of a multi-period MPD)
+				if sec%2 == 1 {
+					back := 25_000 * rt.TS / 1000 / rt.Dur[0]
+					if n-back > 0 {
+						n -= back
+					}
+				}
+				segStartMS := tl.StartTicks(rt, n) * 1000 / rt.TS
+				v := n + c.EffSNR()
+				if sc.mode == "time" {
+					v = tl.StartTicks(rt, n)
+				}
+				pi := periodFor(m, segStartMS)
+				for _, w := range wants {
+					why := ""
+					var media string
+					switch {
+					case pi < 0:
+						why = "no Period of the MPD contains the segment"
+					case w.b >= len(m.Periods[pi].BaseURLs):
+						why = "the Period has no BaseURL for this pattern"
+					default:
+						var ok bool
+						if media, ok = mediaFor(m, pi, rt.ID); !ok {
+							why = "no SegmentTemplate@media for the representation in the Period"
+						}
+					}
+					if why != "" {
+						pid := ""
+						if pi >= 0 {
+							pid = m.Periods[pi].ID
+						}
+						items = append(items, item{e: tr.E{"ev": "tnoreq", "b": w.b, "period": pid, "why": why, "sec": sec, "url": mu}})
+						continue
+					}
+					q := &rq{b: w.b, sec: sec, rel: sec - sc.ast, n: n, sleeper: w.sleeper, period: m.Periods[pi].ID,
+						url: c.Prefix(a.Name) + "/" + m.Periods[pi].BaseURLs[w.b] + expand(media, rt.ID, v) + fmt.Sprintf("?nowMS=%d", nowMS)}
+					rqs = append(rqs, q)
+					items = append(items, item{q: q})
 				}
 			}
 			// The wall time of a request is the only observable of "slow"; the machine is shared, so a fast answer can
@@ -489,10 +658,15 @@ func Main(args []string) error {
 			}
 			wg.Wait()
 			loopMS := rt.L * 1000 / rt.TS
-			N := int64(rt.N)
-			for _, q := range rqs {
+			for _, it := range items {
+				if it.q == nil {
+					emit(it.e)
+					continue
+				}
+				q := it.q
 				np := project.Pair((q.sec-sc.ast)*1000+sc.msOff, loopMS)
-				emit(tr.E{"ev": "treq", "b": q.b, "k": q.n / N, "i": q.n % N, "now": np[:], "sec": q.sec, "rel": q.rel, "st": q.st, "ms": q.ms, "url": q.url})
+				emit(tr.E{"ev": "treq", "b": q.b, "k": q.n / N, "i": q.n % N, "now": np[:], "sec": q.sec, "rel": q.rel, "st": q.st, "ms": q.ms,
+					"period": q.period, "url": q.url})
 				cnt.add(q.st, "")
 			}
 		}
@@ -549,6 +723,8 @@ func Main(args []string) error {
 		esc      bool
 		maxSeg   int64
 		multirep bool
+		pph      int // periods_<pph> in the URL: segment URLs are then built from the multi-period MPD
+		cont     bool
 	}
 	var sscs []ssc
 	modes := []string{"number", "time", "tlnr"}
@@ -617,7 +793,14 @@ func Main(args []string) error {
 				}
 			}
 			sc.pats = pats
-			c := tl.Cfg{Mode: sc.mode, SNR: sc.snr, AST: sc.ast, TSBD: -1, Extra: []string{statusPart(sc.pats, sc.esc)}}
+			var extra []string
+			if sc.pph > 0 {
+				extra = append(extra, fmt.Sprintf("periods_%d", sc.pph))
+				if sc.cont {
+					extra = append(extra, "continuous_1")
+				}
+			}
+			c := tl.Cfg{Mode: sc.mode, SNR: sc.snr, AST: sc.ast, TSBD: -1, Extra: append(extra, statusPart(sc.pats, sc.esc))}
 			var hp []map[string]any
 			cmax, cmin := 0, 1<<30
 			for _, p := range sc.pats {
@@ -629,7 +812,7 @@ func Main(args []string) error {
 					cmin = p.C
 				}
 			}
-			emit(tl.HeaderE(idx, a, rt, c, tr.E{"part": "status", "pats": hp, "traffic": []any{}, "multirep": sc.multirep}))
+			emit(tl.HeaderE(idx, a, rt, c, tr.E{"part": "status", "pats": hp, "traffic": []any{}, "multirep": sc.multirep, "pph": sc.pph}))
 			N := int64(rt.N)
 			n0 := int64(0)
 			if sc.far {
@@ -639,7 +822,35 @@ func Main(args []string) error {
 			loopMS := rt.L * 1000 / rt.TS
 			end0 := tl.EndTicks(rt, 0)
 			// one request; false = no answer within answerTimeout (recorded as status 0, scenario stopped)
-			request := func(rep string, n int64, u string, rel int64, b4 bool) bool {
+			request := func(rep string, n int64, v int64, u string, rel int64, b4 bool) bool {
+				if sc.pph > 0 {
+					// multi-period MPD: build the URL as a client does, from the Period that contains the segment
+					// (BaseURL if any + SegmentTemplate@media + Representation@id); v = value of $Number$ / $Time$.
+					// An MPD without a usable Period / template is not C14's business: the hand-built URL is used.
+					derived := false
+					r := env.S.Get(c.Prefix(a.Name) + "/" + a.MPD + fmt.Sprintf("?nowMS=%d", sc.ast*1000+rel))
+					if r.Status == 200 {
+						if m, err := project.ParseMPD(r.Body); err == nil {
+							if pi := periodFor(m, tl.StartTicks(rt, n)*1000/rt.TS); pi >= 0 {
+								if media, ok := mediaFor(m, pi, rep); ok {
+									bu := ""
+									if len(m.Periods[pi].BaseURLs) > 0 {
+										bu = m.Periods[pi].BaseURLs[0]
+									}
+									u = c.Prefix(a.Name) + "/" + bu + expand(media, rep, v)
+									derived = true
+								}
+							}
+						}
+					}
+					cnt.mu.Lock()
+					if derived {
+						cnt.mpdDerived++
+					} else {
+						cnt.mpdFallback++
+					}
+					cnt.mu.Unlock()
+				}
 				st, ok := getWD(env, u+fmt.Sprintf("?nowMS=%d", sc.ast*1000+rel), answerTimeout)
 				np := project.Pair(rel, loopMS)
 				emit(tr.E{"ev": "sreq", "rep": rep, "k": n / N, "i": n % N, "now": np[:], "st": st, "url": u, "b4end0": b4, "rel": fmt.Sprint(rel), "answered": ok})
@@ -665,7 +876,11 @@ func Main(args []string) error {
 					}
 				}
 				rel := tl.AvailRelMS(rt, n, 0) + 1
-				if !request(rt.ID, n, tl.SegURL(c, a, rt, n), rel, b4) {
+				vv := n + c.EffSNR()
+				if sc.mode == "time" {
+					vv = st
+				}
+				if !request(rt.ID, n, vv, tl.SegURL(c, a, rt, n), rel, b4) {
 					return
 				}
 				// audio $Time$ requests under start_<t> are refused (410) whatever the fault parameters say: that is the
@@ -681,12 +896,20 @@ func Main(args []string) error {
 					}
 					pth := strings.ReplaceAll(strings.ReplaceAll(au.MediaPat, "$Number$", fmt.Sprint(v)), "$Time$", fmt.Sprint(v))
 					// +40 ms: the audio segment may end up to one AAC frame after the video segment
-					if !request(au.ID, n, c.Prefix(a.Name)+"/"+pth, rel+40, b4) {
+					if !request(au.ID, n, v, c.Prefix(a.Name)+"/"+pth, rel+40, b4) {
 						return
 					}
 				}
 			}
 		}}
+	}
+	// every 4th statuscode scenario on an asset that allows it is combined with periods_<N>
+	for j := range sscs {
+		sc := &sscs[j]
+		pph := pphs[(j/4+int(*seed))%len(pphs)]
+		if j%4 == 1 && periodsOK(sc.a, pph) {
+			sc.pph, sc.cont = pph, (j/4)%2 == 0
+		}
 	}
 	for _, sc := range sscs {
 		jobs = append(jobs, statusJob(sc))
@@ -760,7 +983,8 @@ func Main(args []string) error {
 		bs[fmt.Sprint(k)] = v
 	}
 	tr.PrintStats(map[string]any{"scenarios": nsc, "unanswered": hung, "status_scenarios": len(sscs), "traffic_scenarios": len(tscs), "events": events,
-		"requests": cnt.requests, "distinct": len(cnt.distinct), "samples": samples, "by_status": bs, "sleeping_requests": cnt.sleepers,
+		"requests": cnt.requests, "distinct": len(cnt.distinct), "samples": samples, "by_status": bs, "sleeping_requests": cnt.sleepers, "multi_period_mpds": cnt.multiPeriodMPDs,
+		"status_urls_from_mpd": cnt.mpdDerived, "status_urls_fallback": cnt.mpdFallback,
 		"files": files, "run_s": runS})
 	return nil
 }
